@@ -257,10 +257,16 @@ pub fn encode<const B: usize, const L: usize>(ws: &mut WriteSeam, p: &Plan, vals
         }
         5 => {
             let v = Int::from(&us[0]).to_der().map_err(e)?;
+            if Int::from(us[0]).to_der().map_err(e)? != v {
+                ws.ctx.violate("ENC!=REF", "Int::from(&Uint) and Int::from(Uint) differ");
+            }
             ws.append(&v);
         }
         _ => {
             let v = DerUint::from(&us[0]).to_der().map_err(e)?;
+            if DerUint::from(us[0]).to_der().map_err(e)? != v {
+                ws.ctx.violate("ENC!=REF", "der Uint::from(&Uint) and from(Uint) differ");
+            }
             ws.append(&v);
         }
     }
@@ -308,6 +314,15 @@ pub fn decode<const B: usize, const L: usize>(rs: &mut ReadSeam, p: &Plan) -> De
                     UintRef::from_der(s).and_then(Uint::try_from),
                 ),
             };
+            // by-value forwarders must agree with the by-reference impls
+            let c: ::der::Result<Uint<B, L>> = match f {
+                4 => Any::from_der(s).and_then(Uint::try_from),
+                5 => Int::from_der(s).and_then(Uint::try_from),
+                _ => DerUint::from_der(s).and_then(Uint::try_from),
+            };
+            if a.is_ok() != c.is_ok() || (a.is_ok() && a.as_ref().ok() != c.as_ref().ok()) {
+                rs.ctx.violate("LIE", "DER by-value and by-reference conversions disagree");
+            }
             match (&a, &b) {
                 (Ok(x), Ok(y)) if x == y => {}
                 (Err(_), Err(_)) => {}
